@@ -63,7 +63,7 @@ class VOpts:
         concat_assign=False,     # drive output bus through one concatenation assign
     )
     CHOICES = dict(
-        in_decl=['bus_desc', 'bus_asc', 'bus_mixed', 'bus_off'], wire_decl=['bus'], out_ref=['whole'], in_ref=['whole', 'whole_off'], out_decl=['bus_desc', 'bus_asc'], port_order=[1, 2, 3],
+        in_decl=['bus_desc', 'bus_asc', 'bus_mixed', 'bus_off', 'bus_hi', 'bus_hi_asc'], wire_decl=['bus'], out_ref=['whole'], in_ref=['whole', 'whole_off'], out_decl=['bus_desc', 'bus_asc'], port_order=[1, 2, 3],
         stmt_order=['inst_first', 'interleaved', 'inst_reversed'], pin_order=['rev', 'out_first'], out_style=['assign'],
         escape=[True], noise=['line_comment', 'block_comment', 'star_comment', 'attribute', 'star_attribute', 'tabs_newlines', 'crlf'], redeclare=[True],
         const_style=['bus', 'bus4h', 'bus3d', 'alias', 'alias_rev'], const_spelling=['h', 'd', 'B', 'H', 'D'], open_pin=['empty'], assign_order=['rev'], alias_chain=[True, 'rev'], concat_assign=[True, 'vec_rhs', 'vec_lhs'],
@@ -104,6 +104,7 @@ def verilog(nl, cmap, dffcell, opts, const_gate_inputs=None):
     def in_name(k, port=False):
         if opts.in_ref != 'bit' and nI == 1 and not port: return 'i'          # the whole one-bit vector
         if opts.in_decl == 'scalar' or (opts.in_decl == 'bus_mixed' and k == nI - 1 and nI > 1): return f'i{k}'
+        if opts.in_decl in ('bus_hi', 'bus_hi_asc'): return f'i[{k + 8}]'      # indices with one and with two digits: [n+7:8] / [8:n+7]
         return f'i[{k + 2}]' if opts.in_decl == 'bus_off' else f'i[{k}]'
     whole = opts.out_ref == 'whole' and nO == 1 and opts.out_decl != 'scalar'
     def out_name(j):
@@ -129,6 +130,8 @@ def verilog(nl, cmap, dffcell, opts, const_gate_inputs=None):
     if opts.in_decl == 'scalar': decl += [f'input i{k};' for k in range(nI)]
     else:
         rng = f'[{nIbus - 1}:0]' if opts.in_decl in ('bus_desc', 'bus_mixed') else (f'[{nIbus + 1}:2]' if opts.in_decl == 'bus_off' else f'[0:{nIbus - 1}]')
+        if opts.in_decl == 'bus_hi': rng = f'[{nIbus + 7}:8]'
+        if opts.in_decl == 'bus_hi_asc': rng = f'[8:{nIbus + 7}]'
         if nIbus > 0: decl.append(f'input {rng} i;')
         if opts.in_decl == 'bus_mixed' and nI > 1: decl.append(f'input i{nI - 1};')
     if nl.states: decl.append('input clk;')
@@ -159,6 +162,8 @@ def verilog(nl, cmap, dffcell, opts, const_gate_inputs=None):
     for h in header:
         if h == 'i' and opts.in_decl != 'scalar':
             bits = range(nIbus - 1, -1, -1) if opts.in_decl in ('bus_desc', 'bus_mixed') else (range(nIbus + 1, 1, -1) if opts.in_decl == 'bus_off' else range(nIbus))
+            if opts.in_decl == 'bus_hi': bits = range(nIbus + 7, 7, -1)
+            if opts.in_decl == 'bus_hi_asc': bits = range(8, nIbus + 8)
             expected_ports += [f'i[{b}]' for b in bits]
         elif h == 'o' and opts.out_decl != 'scalar':
             bits = range(nO - 1, -1, -1) if opts.out_decl == 'bus_desc' else range(nO)
